@@ -6,7 +6,7 @@ so one IR can be rendered differently for the metamorphic properties (C12, C13).
 The generator does NOT decide what should be reported: that is the model's job.  It only has to produce programs
 that compile and that exercise every site kind x placement x annotation mix; the distribution it produced is
 reported in the evidence."""
-import os
+import os, zlib
 
 NEST = ["if", "for", "switch", "select", "closure", "defer", "go", "block", "ifelse", "range"]
 
@@ -495,7 +495,11 @@ def render(W, outdir, rng=None, layout=None, edit=None):
                     # an @ignore of an unknown code: creates a scoped marker without changing any verdict
                     lines.append("// @ignore X9")
                 lines += dec.doc
+                pkg_ign = layout.get("pkg_ignores") and dec.id.startswith("pkglvl-") and len(dec.lines) == 1 and zlib.crc32(dec.id.encode()) % 3 == 0
                 for l in dec.lines:
+                    if pkg_ign:
+                        # a trailing @ignore on a one-line top-level declaration (the same declarations in every rendering of the IR)
+                        l = l + " // @ignore ALL"
                     lines.append(l)
                     if layout.get("blank") and rng is not None and rng.random() < 0.08 and l.rstrip().endswith(("{", "}", ";")) and "/*@" not in l:
                         lines.append("\t// interleaved ordinary comment")
